@@ -149,7 +149,7 @@ TRACE_PLANS = {
         simulate={"quick": [sim("U1", 64, 10, "Fam_All", "NextSim_Op"), sim("U2", 32, 10, "Fam_All", "NextSim_Op")],
                   "thorough": [sim("U1", 500, 12, "Fam_All", "NextSim_Op"), sim("U2", 300, 12, "Fam_All", "NextSim_Op"),
                                sim("U3", 200, 12, "Fam_All", "NextSim_Op")]},
-        drivers={"quick": (16, 18), "thorough": (400, 40)}),
+        drivers={"quick": (16, 18), "thorough": (240, 30)}),
     "C13": dict(
         layout={"quick": (2, 1, 2, 3), "thorough": (2, 1, 3, 4)},
         layout_faults={"quick": ["stale_handles", "refresh_before_remove"], "thorough": ["no_refresh_on_merge", "dup_on_merge", "refresh_before_remove", "stale_handles"]},
@@ -158,7 +158,7 @@ TRACE_PLANS = {
         simulate={"quick": [sim("U2", 32, 11, "Fam_All", "NextSim_Struct"), sim("U3", 32, 11, "Fam_All", "NextSim_Struct")],
                   "thorough": [sim("U2", 400, 13, "Fam_All", "NextSim_Struct"), sim("U3", 400, 13, "Fam_All", "NextSim_Struct"),
                                sim("U1", 200, 12, "Fam_All", "NextSim_Struct")]},
-        drivers={"quick": (16, 18), "thorough": (400, 40)}),
+        drivers={"quick": (16, 18), "thorough": (240, 30)}),
     "C20": dict(
         layout={"quick": (2, 1, 2, 3), "thorough": (2, 1, 3, 4)},
         layout_faults={"quick": ["stale_handles", "refresh_before_remove"], "thorough": ["no_refresh_on_merge", "dup_on_merge", "refresh_before_remove", "stale_handles"]},
@@ -167,5 +167,5 @@ TRACE_PLANS = {
         simulate={"quick": [sim("U2", 32, 11, "Fam_All", "NextSim_Comp"), sim("U3", 32, 11, "Fam_All", "NextSim_Comp")],
                   "thorough": [sim("U2", 400, 13, "Fam_All", "NextSim_Comp"), sim("U3", 400, 13, "Fam_All", "NextSim_Comp"),
                                sim("U1", 200, 12, "Fam_All", "NextSim_Comp")]},
-        drivers={"quick": (16, 18), "thorough": (400, 40)}),
+        drivers={"quick": (16, 18), "thorough": (240, 30)}),
 }
